@@ -47,7 +47,7 @@ OPS = [(0, 0, b"k", b"v", 0, False, None), (0, 0, b"k", b"v", 0, True, None), (0
        (1, [(b"a", b"1"), (b"b", b"2"), (b"c", b"3")], 0, False, None), (1, [(b"a", b"1"), (b"b", b"2")], 0, True, None),
        (2, b"k", b"x", b"1", 0, False, None), (2, b"k", b"x", b"1", 0, True, None), (3, b"k", None), (4, b"k", None, None), (5, b"k", 9, None),
        (6, b"k", 9, None, None), (7, False, [b"a", b"k", b"zz"]), (8, False, [b"a", b"b"]), (9, b"k", False), (9, b"k", True), (10, False, [b"a", b"b"], False),
-       (10, False, [b"a", b"b"], True), (11, b"n", 2, False), (11, b"n", 2, True), (12, b"k", 1, False), (13, b"k", 5, False), (13, b"k", 5, True),
+       (10, False, [b"a", b"b"], True), (11, b"n", 2, False), (11, b"n", 2, True), (12, b"k", 1, False), (12, b"n", 1, True), (12, b"n", 3, False), (13, b"k", 5, False), (13, b"k", 5, True),
        (14, 0, False), (14, 0, True), (15,),
        # noreply left to the client's default_noreply (both settings occur in the configurations below)
        (0, 0, b"k", b"v", 0, None, None), (1, [(b"a", b"1"), (b"b", b"2")], 0, None, None), (9, b"k", None), (10, False, [b"a", b"b"], None),
